@@ -28,11 +28,27 @@ import (
 // output wire fed by an identity gate.
 func C05outputs(p *load.Program, run *report.Run) {
 	run.Rule("stream-constant-outputs", "if a circuit builder reachable from circuitGenerators can store the constant zero/one wire into its result parameter, Program.Stream routes every replaced result element to a fresh output wire (Output() test, identity gate, store back) between the generator call and Compile")
+	compiledOutputs(p, run, "stream-constant-outputs", "compiler/ssa", "Program", "Stream", true)
+}
+
+// C12outputs: the same obligation for the circuit that folds wide constants.
+func C12outputs(p *load.Program, run *report.Run) {
+	run.Rule("fold-constant-outputs", "mpa.Int.bin, which folds operators on constants wider than 64 bits by compiling a builder's circuit, routes every result element the builder replaced by a constant wire to a fresh output wire before Compile (otherwise folding x + y crashes the compiler)")
+	compiledOutputs(p, run, "fold-constant-outputs", "compiler/mpa", "Int", "bin", false)
+}
+
+func compiledOutputs(p *load.Program, run *report.Run, rule, relPkg, recv, fname string, viaTable bool) {
 	cpkg := p.ByPath[load.Module+"/compiler/circuits"]
-	spkg, gens := dispatch.MapLiteral(p, "compiler/ssa", "circuitGenerators")
-	_, stream := dispatch.FindFunc(p, "compiler/ssa", "Program", "Stream")
+	spkg := p.ByPath[load.Module+"/"+relPkg]
+	var gens map[string]ast.Expr
+	if viaTable {
+		_, gens = dispatch.MapLiteral(p, relPkg, "circuitGenerators")
+	} else {
+		gens = map[string]ast.Expr{}
+	}
+	_, stream := dispatch.FindFunc(p, relPkg, recv, fname)
 	if cpkg == nil || spkg == nil || gens == nil || stream == nil {
-		run.Undecided("stream-constant-outputs", "compiler/ssa.Program.Stream", "", "anchors not found")
+		run.Undecided(rule, relPkg+"."+recv+"."+fname, "", "anchors not found")
 		return
 	}
 	cinfo := cpkg.TypesInfo
@@ -167,16 +183,23 @@ func C05outputs(p *load.Program, run *report.Run) {
 			}
 		}
 	}
+	if !viaTable {
+		for _, f := range spkg.Syntax {
+			collect(f)
+		}
+	}
 	run.Count("stream-generators", len(gens))
 	var names []string
 	for n := range reach {
 		names = append(names, n)
 	}
 	sort.Strings(names)
-	key := "compiler/ssa.Program.Stream/instruction-circuit outputs"
+	key := relPkg + "." + recv + "." + fname + "/compiled result slice"
 	if len(names) == 0 {
-		run.OK("stream-constant-outputs", key, p.Rel(stream.Pos()), "no builder reachable from the generator table stores a constant wire into its result")
-		run.Floor("stream-generators", 20)
+		run.OK(rule, key, p.Rel(stream.Pos()), "no builder reachable from the generator table stores a constant wire into its result")
+		if viaTable {
+			run.Floor("stream-generators", 20)
+		}
 		return
 	}
 	// the generator call f(cc, instr, cIn, cOut) and the Compile call that follows it
@@ -203,7 +226,7 @@ func C05outputs(p *load.Program, run *report.Run) {
 		return true
 	})
 	if genCall == nil || compile == nil || outVar == nil {
-		run.Undecided("stream-constant-outputs", key, p.Rel(stream.Pos()), "generator call or Compile call not found in Program.Stream")
+		run.Undecided(rule, key, p.Rel(stream.Pos()), "generator call or Compile call not found in Program.Stream")
 		return
 	}
 	rewired := false
@@ -246,11 +269,13 @@ func C05outputs(p *load.Program, run *report.Run) {
 		return true
 	})
 	if rewired {
-		run.OK("stream-constant-outputs", key, p.Rel(genCall.Pos()), fmt.Sprintf("%d builders can return constant result wires (%v …); replaced results are routed to fresh output wires before Compile", len(names), names[:min(3, len(names))]))
+		run.OK(rule, key, p.Rel(genCall.Pos()), fmt.Sprintf("%d builders can return constant result wires (%v …); replaced results are routed to fresh output wires before Compile", len(names), names[:min(3, len(names))]))
 	} else {
-		run.Violate("stream-constant-outputs", key, p.Rel(genCall.Pos()), fmt.Sprintf("builders reachable from circuitGenerators (%v) can replace a result wire by the shared constant wire, and Program.Stream compiles the builder's result slice as the circuit's outputs unchanged: circuits.Compiler.Compile panics (\"Output already assigned\") for such an instruction, e.g. binary.HammingDistance", names), nil)
+		run.Violate(rule, key, p.Rel(genCall.Pos()), fmt.Sprintf("builders reachable from circuitGenerators (%v) can replace a result wire by the shared constant wire, and %s.%s compiles the builder's result slice as the circuit's outputs unchanged: circuits.Compiler.Compile panics (\"Output already assigned\") when that happens", names, recv, fname), nil)
 	}
-	run.Floor("stream-generators", 20)
+	if viaTable {
+		run.Floor("stream-generators", 20)
+	}
 }
 
 func lintRoot(e ast.Expr) *ast.Ident {
